@@ -1,5 +1,6 @@
 import Lean.Data.Json
 import SpoxModel.Model.Singleton
+import SpoxModel.Model.MLOnnx
 /-! Line-protocol handler for property C05 (model side of the correspondence): a constructor call in,
     the model's singleton one-node model, the hand-built form, and `construct` (with the inference
     answer observed on the real run plugged in as the judgement) out. -/
@@ -162,6 +163,19 @@ partial def parsePTy (j : Json) : Except String PTy := do
     return .opt (← parsePTy t)
   else throw "bad proto type"
 
+def elemOfCode : Nat → Option C06M.Elem
+  | 1 => some .f32 | 11 => some .f64 | 6 => some .i32 | 7 => some .i64 | 9 => some .bool | 8 => some .str
+  | _ => none
+
+def codeOfElem : C06M.Elem → Nat
+  | .f32 => 1 | .f64 => 11 | .i32 => 6 | .i64 => 7 | .bool => 9 | .str => 8
+
+/-- hypothesis of `supplemented_refines_partial` for one Compress call: the own answer refines the standard one -/
+def compressHyp (r : Except Err Ty) (std : List (String × Option Ty)) : List (String × Json) :=
+  match r, std with
+  | .ok t, [(k, st)] => [("own_refines_std", toJson (refinesAll [(k, some t)] [(k, st)]))]
+  | _, _ => []
+
 def handle (req : Json) : Json :=
   match (do
     let c ← parseCall req
@@ -212,7 +226,9 @@ def handle (req : Json) : Json :=
             | some lj => do
               let rs ← tyList (← lj.getObjVal? "results")
               let as ← tyList (← lj.getObjVal? "args")
-              pure [("loop_own", pairsJ (loopOwn rs as std))]
+              pure [("loop_own", pairsJ (loopOwn rs as std)),
+                    -- hypothesis of `supplemented_refines_partial`, evaluated on this very call
+                    ("own_refines_std", toJson (refinesAll (loopOwn rs as std) std))]
             | none => pure []
           let cp ← match (req.getObjVal? "compress").toOption with
             | some cj => do
@@ -221,10 +237,11 @@ def handle (req : Json) : Json :=
                 | none => none
               let tys := c.inPairs.map (fun (p : String × Nat) => (c.info p.2).ty)
               match tys with
-              | [some inp, some cond] =>
-                pure [("compress_own", match compressOwn inp cond axis with
+              | [some inp, some cond] => do
+                let ownJ : Json := match compressOwn inp cond axis with
                   | .ok t => tyJ t
-                  | .error _ => Json.str "inference")]
+                  | .error _ => Json.str "inference"
+                pure ([("compress_own", ownJ)] ++ compressHyp (compressOwn inp cond axis) std)
               | _ => pure []
             | none => pure []
           pure (lp ++ cp)
@@ -263,7 +280,16 @@ def handle (req : Json) : Json :=
         | "if", _ => pure [("formals", formalsJ (some []))]
         | _, _ => pure []
       | none => pure []
-    return Json.mkObj (base ++ extra ++ vpExtra ++ suppExtra ++ protoExtra ++ formalsExtra)) with
+    -- ONNX's own answer for the ml operators whose inference spox replaces (element type of the output)
+    let mlExtra ← match (req.getObjVal? "ml_onnx").toOption with
+      | some mj => do
+        let opn ← mj.getObjValAs? String "op"
+        let code ← mj.getObjValAs? Nat "elem"
+        match elemOfCode code with
+        | some e => pure [("ml_onnx", toJson (codeOfElem (MLOnnx.onnxMlElem opn e)))]
+        | none => pure []
+      | none => pure []
+    return Json.mkObj (base ++ extra ++ vpExtra ++ suppExtra ++ protoExtra ++ formalsExtra ++ mlExtra)) with
   | .ok j => j
   | .error e => Json.mkObj [("error", e)]
 
